@@ -252,6 +252,7 @@ def schedule_monitor(prefix="sched", resumed=False):
             if float(st._current["beta"]) != hb[-1]:
                 p.violate(f"{prefix}:commit-beta", f"committed beta {hb[-1]!r} differs from the iteration's beta {st._current['beta']!r}", iter=ev.iter)
 
+    mon.reset = lambda: memo.update(beta_prev=None, first=False, w=None)  # after a state load: previous temperature = last one of the loaded history
     return mon
 
 
